@@ -9,7 +9,8 @@ MAP = {'h1': ['C14', 'C17'], 'h2': ['C13', 'C16', 'C15', 'C04'], 'h3': ['C05', '
        'h26': ['C01', 'C05', 'C06'], 'h27': ['C12', 'C11'], 'h28': ['C11'], 'h29': ['C10', 'C09'], 'h30': ['C03'], 'h31': ['C04'],
        'h32': ['C17'], 'h33': ['C20'],
        'h40': ['C03', 'C05'], 'h41': ['C03'], 'h42': ['C03'], 'h43': ['C18', 'C04'], 'h44': ['C04', 'C18'], 'h45': ['C02', 'C10'], 'h46': ['C08', 'C09'],
-       'h47': ['C09', 'C06'], 'h48': ['C11'], 'h49': ['C08', 'C09'], 'h50': ['C14'], 'h51': ['C15'], 'h52': ['C15'], 'h53': ['C16']}
+       'h47': ['C09', 'C06'], 'h48': ['C11'], 'h49': ['C08', 'C09'], 'h50': ['C14'], 'h51': ['C15'], 'h52': ['C15'], 'h53': ['C16'],
+       'h60': ['C16'], 'h61': ['C14'], 'h62': ['C15'], 'h63': ['C14'], 'h64': ['C03']}
 out_path = VERIF + '/seeded/harmless/results.json'
 results = {}
 only = sys.argv[1:]
